@@ -234,8 +234,16 @@ def check(pid, tier):
     par = 5
     with cf.ThreadPoolExecutor(max_workers=par) as ex:
         futs = [ex.submit(run_profile, pid, tier, p, kind, base, core.seed(), 3) for p, kind in jobs]
-        for f in futs:
-            out, vs, sample = f.result()
+        for f, (p, kind) in zip(futs, jobs):
+            try:
+                out, vs, sample = f.result()
+            except core.Aborted as e:
+                # a panic that cannot unwind (or a crash) inside foyer while running this property's workload
+                out = {"profile": p["name"], "algo": p["algo"], "kind": kind, "scripts": 0, "matched": 0,
+                       "mismatched": 0, "roots": 0, "panics": 1, "nontrivial": 0, "by_field": {"abort": 1}}
+                vs = [{"kind": "process_abort", "profile": p["name"], "ops": [], "observed": str(e)[:800],
+                       "op": {"name": "abort"}, "bad": "process_abort"}]
+                sample = None
             results.append(out)
             violations += vs
             if sample and len(samples) < 4:
